@@ -149,6 +149,7 @@ func (q reqSpec) effHost() string {
 type outcome struct {
 	status int
 	loc    *url.URL
+	rawLoc string
 	seen   *seen
 }
 
@@ -169,7 +170,8 @@ func (w *world) do(q reqSpec) outcome {
 	w.handler.ServeHTTP(rec, req)
 	o := outcome{status: rec.Code, seen: w.last}
 	if rec.Code == 301 {
-		if u, err := url.Parse(rec.Header().Get("Location")); err == nil {
+		o.rawLoc = rec.Header().Get("Location")
+		if u, err := url.Parse(o.rawLoc); err == nil {
 			o.loc = u
 		}
 	}
@@ -186,6 +188,8 @@ func (o outcome) String() string {
 			h = hexs(o.seen.host)
 		}
 		return fmt.Sprintf("next %s %s %s", hexs(o.seen.path), o.seen.kind, h)
+	case o.status == 301 && o.loc != nil && o.loc.Host == "" && o.loc.Scheme == "":
+		return fmt.Sprintf("301p %s", hexs(o.rawLoc))
 	case o.status == 301 && o.loc != nil:
 		s := 0
 		if o.loc.Scheme == "https" {
@@ -420,20 +424,32 @@ func (g gwSpec) line() string {
 	if p == "" {
 		p = "-"
 	}
-	return fmt.Sprintf("gw %s %s %d %d %d", hexs(g.host), p, b2i(g.us), b2i(g.nd), b2i(g.inl))
+	hostNoPort := g.host
+	if h, _, err := net.SplitHostPort(g.host); err == nil {
+		hostNoPort = h
+	}
+	return fmt.Sprintf("gw %s %s %d %d %d %d", hexs(g.host), p, b2i(g.us), b2i(g.nd), b2i(g.inl), b2i(net.ParseIP(hostNoPort) != nil))
 }
 
 func (w *world) apply(line string) bool {
 	f := strings.Fields(line)
 	switch {
-	case f[0] == "gw" && len(f) == 6:
+	case f[0] == "gw" && len(f) == 7:
 		var paths []string
 		if f[2] != "-" {
 			for _, p := range strings.Split(f[2], ",") {
 				paths = append(paths, string(vh.UnHex(p)))
 			}
 		}
-		w.cfg.PublicGateways[string(vh.UnHex(f[1]))] = &gateway.PublicGateway{Paths: paths, UseSubdomains: f[3] == "1", NoDNSLink: f[4] == "1", InlineDNSLink: f[5] == "1"}
+		hn := string(vh.UnHex(f[1]))
+		hnp := hn
+		if h, _, err := net.SplitHostPort(hn); err == nil {
+			hnp = h
+		}
+		if (f[6] == "1") != (net.ParseIP(hnp) != nil) { // isIP is a parameter of the model: it must be the real answer
+			return false
+		}
+		w.cfg.PublicGateways[hn] = &gateway.PublicGateway{Paths: paths, UseSubdomains: f[3] == "1", NoDNSLink: f[4] == "1", InlineDNSLink: f[5] == "1"}
 		w.handler = nil
 		return true
 	case f[0] == "cfgnodns" && len(f) == 2:
@@ -447,8 +463,27 @@ func (w *world) apply(line string) bool {
 	return false
 }
 
+// uriField is the `?uri=` parameter as the model sees it (url.Parse and gopath.Join are parameters):
+// "-" absent, "x" unparsable, else <scheme>:<joined redirect path>
+func (q reqSpec) uriField() string {
+	vals, _ := url.ParseQuery(q.rawq)
+	v := vals.Get("uri")
+	if v == "" {
+		return "-"
+	}
+	u, err := url.Parse(v)
+	if err != nil {
+		return "x"
+	}
+	p := u.EscapedPath()
+	if u.RawQuery != "" {
+		p += "?" + url.PathEscape(u.RawQuery)
+	}
+	return hexs(u.Scheme) + ":" + hexs(gopath.Join("/", u.Scheme, u.Host, p))
+}
+
 func (q reqSpec) line(be *backend) string {
-	return strings.TrimSpace(fmt.Sprintf("req %s %s %s %s %s %d %s", hexs(q.host), hexs(q.xfh), hexs(q.path), hexs(q.rawq), hexs(q.frag), b2i(q.https), buildTables(be, q)))
+	return strings.TrimSpace(fmt.Sprintf("req %s %s %s %s %s %d %s %s", hexs(q.host), hexs(q.xfh), hexs(q.path), hexs(q.rawq), hexs(q.frag), b2i(q.https), q.uriField(), buildTables(be, q)))
 }
 
 func gen(r *vh.Rand, tier string, n int, emit func(vh.Case)) {
@@ -476,7 +511,12 @@ func gen(r *vh.Rand, tier string, n int, emit func(vh.Case)) {
 			gws = append(gws, gwSpec{host: "ipfs.io", paths: pickPaths(), us: false, nd: cr.Chance(1, 4)})
 		}
 		if cr.Chance(1, 3) {
-			gws = append(gws, gwSpec{host: "*.wild.test", paths: pickPaths(), us: cr.Chance(3, 4), inl: cr.Bool()})
+			// wildcard patterns: `*` is `[^.]+`; at most one pattern can match a host (Go keeps them in a map)
+			gws = append(gws, gwSpec{host: vh.Pick(cr, []string{"*.wild.test", "*.wild.test", "gw-*.multi.test", "*.*.deep.test", "*.ported.test:8080"}), paths: pickPaths(), us: cr.Chance(3, 4), inl: cr.Bool()})
+		}
+		if cr.Chance(1, 6) {
+			// IP-literal gateways: with UseSubdomains they are dropped by prepareHostnameGateways
+			gws = append(gws, gwSpec{host: vh.Pick(cr, []string{"127.0.0.1", "127.0.0.1:8080", "10.1.2.3"}), paths: pickPaths(), us: cr.Bool()})
 		}
 		if cr.Chance(1, 5) {
 			gws = append(gws, gwSpec{host: "sub.dweb.link", paths: pickPaths(), us: cr.Bool(), nd: cr.Bool()})
@@ -505,9 +545,7 @@ func gen(r *vh.Rand, tier string, n int, emit func(vh.Case)) {
 		for _, g := range gws {
 			if cr.Chance(1, 2) {
 				h := g.host
-				if strings.HasPrefix(h, "*.") {
-					h = "foo" + h[1:]
-				}
+				h = strings.ReplaceAll(h, "*", "foo")
 				if hh, _, err := net.SplitHostPort(h); err == nil {
 					h = hh
 				}
@@ -518,8 +556,11 @@ func gen(r *vh.Rand, tier string, n int, emit func(vh.Case)) {
 		for j := 0; j < nreq; j++ {
 			g := vh.Pick(cr, gws)
 			gwHost := g.host
-			if strings.HasPrefix(gwHost, "*.") {
-				gwHost = vh.Pick(cr, []string{"foo", "bar-baz", "x"}) + gwHost[1:]
+			for strings.Contains(gwHost, "*") {
+				gwHost = strings.Replace(gwHost, "*", vh.Pick(cr, []string{"foo", "bar-baz", "x"}), 1)
+			}
+			if cr.Chance(1, 12) && strings.Contains(g.host, "*") { // one label too many / too few: no match
+				gwHost = vh.Pick(cr, []string{"a.b." + strings.TrimLeft(g.host, "*."), strings.TrimLeft(g.host, "*.")})
 			}
 			if cr.Chance(1, 10) && !strings.Contains(gwHost, ":") {
 				gwHost += ":8080"
@@ -565,6 +606,14 @@ func gen(r *vh.Rand, tier string, n int, emit func(vh.Case)) {
 				q.host = strings.ToLower(id) + "." + ns + "." + gwHost
 				q.path = "/"
 			}
+			if cr.Chance(1, 12) { // registerProtocolHandler: ?uri=ipfs://… is redirected before any host logic
+				v := vh.Pick(cr, []string{"ipfs://" + id + "/a/b", "ipfs://" + id, "ipns://" + vh.Pick(cr, names) + "/wiki/x?y=1", "ipfs://" + id + "/a%20b/../c",
+					"http://example.com/", "web+ipfs://" + id, "%zz", "ipfs:", "ipns://a b/", "IPFS://" + id + "/x"})
+				q.rawq = "uri=" + url.QueryEscape(v)
+				if cr.Bool() {
+					q.rawq += "&x=1"
+				}
+			}
 			if cr.Chance(1, 7) { // behind a reverse proxy: the public host arrives in X-Forwarded-Host
 				q.xfh = q.host
 				q.host = vh.Pick(cr, []string{"internal.proxy:9000", "10.0.0.1", "backend"})
@@ -580,8 +629,19 @@ func gen(r *vh.Rand, tier string, n int, emit func(vh.Case)) {
 				if o.status != 301 || o.loc == nil {
 					break
 				}
-				cur = reqSpec{host: o.loc.Host, path: o.loc.Path, rawq: o.loc.RawQuery, frag: "", https: o.loc.Scheme == "https"}
+				if o.loc.Host == "" { // 301 to a path on the same host (?uri=)
+					cur = reqSpec{host: cur.host, xfh: cur.xfh, path: o.loc.Path, rawq: o.loc.RawQuery, https: cur.https}
+				} else {
+					cur = reqSpec{host: o.loc.Host, path: o.loc.Path, rawq: o.loc.RawQuery, frag: "", https: o.loc.Scheme == "https"}
+				}
 				c.Ops = append(c.Ops, cur.line(w.be))
+			}
+		}
+		// the base32 CID text codec (computed by the model, compared with go-cid)
+		for j, m := 0, cr.Range(1, 2); j < m; j++ {
+			if dc, err := cid.Decode(genID(cr, []string{"x"})); err == nil {
+				cdc := vh.Pick(cr, []uint64{dc.Type(), cid.Raw, cid.DagProtobuf, cid.Libp2pKey, 0x0129, 0x300000})
+				c.Ops = append(c.Ops, fmt.Sprintf("b32 %d %s", cdc, vh.Hex(dc.Hash())))
 			}
 		}
 		// the exported label codec, directly
@@ -743,6 +803,27 @@ func monitorDNSLinkHost(o *vh.Out, w *world, q reqSpec, out outcome) {
 	}
 }
 
+var cleanURI = regexp.MustCompile(`^(ipfs|ipns)://([A-Za-z0-9.-]+)((?:/[A-Za-z0-9._-]+)*/?)$`)
+
+// monitor: the registerProtocolHandler redirect. ipfs://<id>/<path> must go to /ipfs/<id>/<path> (same id, same
+// path), ipns:// likewise; any other scheme or an unparsable value is a 400, never a redirect.
+func monitorURI(o *vh.Out, q reqSpec, out outcome) {
+	vals, _ := url.ParseQuery(q.rawq)
+	v := vals.Get("uri")
+	if m := cleanURI.FindStringSubmatch(v); m != nil {
+		want := gopath.Clean("/" + m[1] + "/" + m[2] + m[3])
+		if out.status != 301 || out.rawLoc != want {
+			o.Fail("uri-redirect-wrong-path", "uri=%q answered %d Location %q, want 301 %q", v, out.status, out.rawLoc, want)
+		}
+		return
+	}
+	if u, err := url.Parse(v); err != nil || (u.Scheme != "ipfs" && u.Scheme != "ipns") {
+		if out.status != 400 {
+			o.Fail("uri-bad-value-not-400", "uri=%q answered %d Location %q", v, out.status, out.rawLoc)
+		}
+	}
+}
+
 func exec(c vh.Case, o *vh.Out) {
 	golog.SetAllLoggers(golog.LevelFatal)
 	w := newWorld()
@@ -785,10 +866,27 @@ func exec(c vh.Case, o *vh.Out) {
 				o.Fail("uninline-not-injective", "Inline(Uninline(%q)) = %q", l, inlineRef(n))
 			}
 			o.Emit("%s", hexs(n))
-		case f[0] == "req" && len(f) >= 7:
+		case f[0] == "b32" && len(f) == 3:
+			// the base32 CID text codec is proved in Lean (C32/Base32.lean): the model computes the string itself
+			codec, _ := strconv.ParseUint(f[1], 10, 64)
+			str, err := cid.NewCidV1(codec, mh.Multihash(vh.UnHex(f[2]))).StringOfBase(mbase.Base32)
+			if err != nil {
+				o.Emit("err")
+				continue
+			}
+			if c2, err := cid.Decode(str); err != nil || c2.Type() != codec || string(c2.Hash()) != string(vh.UnHex(f[2])) {
+				o.Fail("base32-roundtrip", "cid.Decode(%q)", str)
+			}
+			o.Kind("b32")
+			o.Emit("%s", hexs(str))
+		case f[0] == "req" && len(f) >= 8:
 			q := reqSpec{host: string(vh.UnHex(f[1])), xfh: string(vh.UnHex(f[2])), path: string(vh.UnHex(f[3])), rawq: string(vh.UnHex(f[4])), frag: string(vh.UnHex(f[5])), https: f[6] == "1"}
 			// the tables in the op line are parameters of the model: they must be what the real functions say
-			if want := buildTables(w.be, q); want != strings.Join(f[7:], " ") {
+			if f[7] != q.uriField() {
+				o.Emit("bad-uri-field")
+				continue
+			}
+			if want := buildTables(w.be, q); want != strings.Join(f[8:], " ") {
 				o.Emit("bad-tables")
 				continue
 			}
@@ -799,6 +897,12 @@ func exec(c vh.Case, o *vh.Out) {
 				isGw = strings.HasSuffix(out.loc.Host, "."+pp[1]+"."+q.effHost())
 			}
 			switch {
+			case out.status == 301 && q.uriField() != "-":
+				o.Kind("uri-redirect")
+				monitorURI(o, q, out)
+			case q.uriField() != "-":
+				o.Kind(fmt.Sprintf("uri-status-%d", out.status))
+				monitorURI(o, q, out)
 			case out.status == 301:
 				o.Kind("redirect")
 				// a redirect to the very URL that was requested never ends: the content is not served
@@ -856,7 +960,11 @@ func corpus() {
 				if o.status != 301 || o.loc == nil {
 					break
 				}
-				cur = reqSpec{host: o.loc.Host, path: o.loc.Path, rawq: o.loc.RawQuery, https: o.loc.Scheme == "https"}
+				if o.loc.Host == "" {
+					cur = reqSpec{host: cur.host, xfh: cur.xfh, path: o.loc.Path, rawq: o.loc.RawQuery, https: cur.https}
+				} else {
+					cur = reqSpec{host: o.loc.Host, path: o.loc.Path, rawq: o.loc.RawQuery, https: o.loc.Scheme == "https"}
+				}
 				fmt.Println(cur.line(w.be))
 			}
 		}
@@ -896,6 +1004,24 @@ func corpus() {
 		{host: "internal.proxy:9000", xfh: "bafkreidgumpb6dyyd7fnrtrbuvmlvqmxqdpg57xxpkr3fb43zplcsyaghy.ipfs.gw.example.net", path: "/"},
 		{host: "bafkreidgumpb6dyyd7fnrtrbuvmlvqmxqdpg57xxpkr3fb43zplcsyaghy.ipfs.gw.example.net", path: "/"},
 		{host: "backend", xfh: "gw.example.net", path: "/ipfs/" + c0 + "/a", https: true},
+	})
+	emit("uri-ip-wildcard", []string{dweb,
+		gwSpec{host: "127.0.0.1:8080", paths: []string{"/ipfs", "/ipns"}, us: true}.line(),
+		gwSpec{host: "10.1.2.3", paths: []string{"/ipfs", "/ipns"}, us: false}.line(),
+		gwSpec{host: "gw-*.multi.test", paths: []string{"/ipfs", "/ipns"}, us: true}.line(),
+		gwSpec{host: "*.*.deep.test", paths: []string{"/ipfs"}, us: true, inl: true}.line()}, []reqSpec{
+		{host: "dweb.link", path: "/", rawq: "uri=" + url.QueryEscape("ipfs://"+c1+"/a/b")},
+		{host: "unknown.example", path: "/ipfs/x", rawq: "uri=" + url.QueryEscape("ipns://en.wikipedia-on-ipfs.org/wiki/?x=1") + "&y=2"},
+		{host: "dweb.link", path: "/", rawq: "uri=" + url.QueryEscape("http://example.com/")},
+		{host: "dweb.link", path: "/", rawq: "uri=%25zz"},
+		{host: "127.0.0.1:8080", path: "/ipfs/" + c1 + "/x"},
+		{host: c1 + ".ipfs.127.0.0.1:8080", path: "/x"},
+		{host: "10.1.2.3", path: "/ipfs/" + c1 + "/x"},
+		{host: "gw-eu.multi.test", path: "/ipfs/" + c1 + "/x"},
+		{host: "gw-.multi.test", path: "/ipfs/" + c1 + "/x"},
+		{host: "gw-a.b.multi.test", path: "/ipfs/" + c1 + "/x"},
+		{host: "a.b.deep.test:8080", path: "/ipfs/" + c1 + "/x"},
+		{host: "b.deep.test", path: "/ipfs/" + c1 + "/x"},
 	})
 	emit("peer-ids", []string{dweb}, []reqSpec{
 		{host: "dweb.link", path: "/ipns/12D3KooWRBy97UB99e3J6hiPesre1MZeuNQvfan4gBziswrRJsNK/x"},
